@@ -107,7 +107,7 @@ def make_real_strategy(name, opts):
     return st
 
 
-def play_real(name, opts, kind, data, decider, abort_cls=RuntimeError, fail_at=None, max_tests=400, cut=None):
+def play_real(name, opts, kind, data, decider, abort_cls=RuntimeError, fail_at=None, max_tests=400, cut=None, touch=None):
     """one run() of a real strategy on a real file under `decider(k, disk)`.
     fail_at=j makes the j-th rmslice() call raise (an internal strategy failure).
     Returns (Observed, orig_fields, run-as-script)"""
@@ -118,7 +118,11 @@ def play_real(name, opts, kind, data, decider, abort_cls=RuntimeError, fail_at=N
         def dec(k, disk):
             if k >= max_tests:
                 return "x"
-            return decider(k, disk)
+            out = decider(k, disk)
+            if touch is not None and out != "x" and touch(k):
+                # the program under test rewrites its input in place (a formatter, a tool that normalises line ends)
+                s.path.write_bytes(disk + b"\n// rewritten by the tool under test\n")
+            return out
 
         s.test.decider = dec
         undo = None
